@@ -150,11 +150,17 @@ Fixpoint run_macros (global : option config) (invs : list invocation) (script : 
    offers another client whose sink nobody observes; whoever comes first wins, later offers are
    ignored.  [PInvoke] is one macro invocation.  The observation of an invocation is what the
    OBSERVED client's sink and handler saw, whether the invocation panicked, and the evaluation log. *)
-Inductive pstep := PSet | PSetOther | PInvoke (inv : invocation).
+Inductive pstep := PSet | PSetOther | PInvoke (inv : invocation)
+                 | PGet | PIsSet.      (* get_global_default().is_ok() / is_global_default_set() *)
 
+(* [po_flag]: what a read of the holder reported (None for an invocation) *)
 Record pobs := {
   po_panicked : bool; po_stuck : bool;
-  po_emitted : list str; po_handled : list merror; po_evals : list expr }.
+  po_emitted : list str; po_handled : list merror; po_evals : list expr; po_flag : option bool }.
+
+Definition read_obs (g : option (bool * config)) : pobs :=
+  {| po_panicked := false; po_stuck := false; po_emitted := []; po_handled := []; po_evals := [];
+     po_flag := Some (match g with Some _ => true | None => false end) |}.
 
 Definition offer (g : option (bool * config)) (mine : bool) (c : config) : option (bool * config) :=
   match g with None => Some (mine, c) | Some _ => g end.
@@ -171,11 +177,14 @@ Fixpoint run_process (cfg other : config) (g : option (bool * config)) (script :
     {| po_panicked := m_panicked s; po_stuck := m_stuck s;
        po_emitted := if mine then m_emitted s else [];
        po_handled := if mine then m_handled s else [];
-       po_evals := m_evals s |}
+       po_evals := m_evals s; po_flag := None |}
     :: run_process cfg other g (if mine then m_script s else script) r
+  | PGet :: r => read_obs g :: run_process cfg other g script r
+  | PIsSet :: r => read_obs g :: run_process cfg other g script r
   end.
 
 Definition is_invoke (st : pstep) : bool := match st with PInvoke _ => true | _ => false end.
+Definition is_offer (st : pstep) : bool := match st with PSet | PSetOther => true | _ => false end.
 
 
 (* the reference for a process whose holder holds [cfg]: the tagged quiet sends, one after the other *)
